@@ -2,18 +2,20 @@
 Decided here: (1) the Merkle proof checks every decoder relies on are total (Kani index lemmas + proof walk, shared with C08); (2) the astria-core
 `try_from_raw` constructors contain no reachable panic (unwrap/expect/index/overflow) in their own code for arbitrary raw messages (library calls that leave
 the crate — prost/bytes/tendermint conversions — are havocked and listed).  Byte-level protobuf decoding is NOT encoded."""
+import os
 import re
 import z3
 from vlib.oblig import obligation, mval
 from vlib import loader, build as B
 from mirsym.engine import Obj, Ref, Inconclusive
 from obligations import c08
+from vlib import build as B
 
 obligation('C17', 'C17-1a merkle index arithmetic is total (Kani, full 64-bit)')(c08.c08_k)
 obligation('C17', 'C17-1b verifying any decodable merkle proof never panics (proof walk, every tree size / leaf index, <= K segments)')(c08.c08_walk)
 
 RAW = 'astria_core::generated::astria::sequencerblock::v1::'
-TARGETS = [
+TARGETS_OLD = [
     (r'^sequencerblock::v1::celestia::<impl at [^>]*>::try_from_raw$', 'SubmittedRollupData', RAW + 'SubmittedRollupData'),
     (r'^sequencerblock::v1::block::<impl at [^>]*>::try_from_raw$', 'RollupTransactions', RAW + 'RollupTransactions'),
     (r'^sequencerblock::v1::block::<impl at [^>]*>::try_from_raw$', 'Deposit', RAW + 'Deposit'),
@@ -23,42 +25,94 @@ TARGETS = [
 ]
 
 
-@obligation('C17', 'C17-2 try_from_raw constructors: no reachable panic in the crate\'s own conversion code for arbitrary raw messages')
+SWEEP_RX = re.compile(r'::(try_from_raw|try_from_raw_ref|from_raw)$')
+
+
+def _sweep_targets(ex):
+    """every raw -> domain constructor of astria-core whose input is a generated (wire) type: (fn name, domain type, param type)"""
+    out = []
+    for n in sorted(ex.fns):
+        if not SWEEP_RX.search(n) or 'closure' not in n and False:
+            continue
+        if 'closure' in n:
+            continue
+        try:
+            fn = ex.fns[n].parse()
+        except Exception:
+            continue
+        if not fn.ptypes:
+            continue
+        pt = fn.ptypes[0].strip()
+        a = ex.adts.lookup(pt.lstrip('&').strip())
+        if not a or '::generated::' not in a['path']:
+            continue          # input is a domain type with invariants of its own (e.g. Unchecked*): not a wire input
+        out.append((n, (ex.impl_self(n) or (None, '?'))[1], pt))
+    return out
+
+
+@obligation('C17', 'C17-2 raw -> domain constructors (every try_from_raw / try_from_raw_ref / from_raw of astria-core over a generated wire type): no reachable panic in the crates\' own conversion code for arbitrary raw messages')
 def c17_2(run):
     ex = loader.load(['astria-core', 'astria-merkle', 'astria-core-address'], scalar_types={'astria_core::primitive::v1::RollupId': 256, 'RollupId': 256, 'std::num::NonZero': 64, 'NonZero': 64}, dep_adts=['tendermint'])
-    run.bound(raw_messages='arbitrary raw structs (every field symbolic; repeated/bytes fields opaque)', library='calls that leave astria-core/astria-merkle are havocked (arbitrary result)')
-    run.assume('havocked library calls (prost, bytes, tendermint, bech32 conversions) do not panic themselves; only panics in the crates\' own code are decided')
-    done = 0
-    havocs = set()
-    for pat, tyname, rawty in TARGETS:
-        cands = [n for n in ex.fns if re.search(pat, n) and 'closure' not in n and ex.impl_self(n)[1] == tyname]
-        if len(cands) != 1:
-            run.note(f'{tyname}::try_from_raw not uniquely found ({len(cands)}); skipped'); continue
-        raw = Obj(rawty)
-        st = ex.start(cands[0], [raw])
-        paths = ex.run(st)
-        run.absorb(ex)
-        npan = 0
-        for i, p in enumerate(paths):
-            if p.kind in ('infeasible',):
-                continue
-            for e in p.events:
-                if e[0] == 'havoc':
-                    havocs.add(re.sub(r'<.*', '', e[1])[:80])
-            if p.kind == 'abort':
-                run.note(f'{tyname}: path {i} leaves the modelled fragment ({str(p.info)[:120]}); not decided'); continue
-            run.cur.paths += 1
-            if p.kind == 'panic':
-                npan += 1
-                clean = not any(e[0] == 'havoc' for e in p.events)
-                run.prove(f'{tyname}::try_from_raw: no panic [path {i}]', p.pc, z3.BoolVal(False), detail={'panic': p.info, 'path_free_of_havoc': clean})
-            else:
-                run.reached(f'{tyname}::try_from_raw returns')
-        run.sample({'type': tyname, 'paths': len(paths), 'panics': npan})
-        done += 1
+    targets = _sweep_targets(ex)
+    lens = (0, 1, 2) if run.tier == 'quick' else (0, 1, 2, 3)
+    run.bound(raw_messages='arbitrary raw structs: every scalar field symbolic, byte buffers opaque with symbolic length, every repeated / map field with exactly L lazily created elements, L in ' + str(list(lens)),
+              constructors=f'{len(targets)} constructors discovered from the MIR of the current tree', budget='per constructor and L: 4000 paths / 600k steps; L >= 2 only where L = 1 had <= 100 paths (quick) / 200 (thorough); genesis (operator-supplied) constructors only in the thorough tier; path budget 1500 (quick) / 40000 (thorough); beyond that: not decided, listed in notes',
+              library='calls that leave astria-core / astria-merkle / astria-core-address are havocked (arbitrary result)')
+    run.assume('havocked library calls (prost, bytes, tendermint, bech32, sha2 conversions) do not panic themselves; only panics in the crates\' own code are decided')
+    run.assume('a wire RollupId is modelled as exactly 32 bytes (its wrong-length rejection path is not explored)')
+    if len(targets) < 40:
+        raise Inconclusive(f'only {len(targets)} raw constructors found; the discovery is broken (refactored?)')
+    done = 0; undecided = []; havocs = set(); sizes = {}; timing = []
+    cap = 100 if run.tier == 'quick' else 200
+    ex.max_paths = 1500 if run.tier == 'quick' else 40000
+    for n, tyname, pt in targets:
+        if run.tier == 'quick' and 'Genesis' in tyname:
+            undecided.append(f'{tyname}(thorough only)'); continue
+        for L in lens:
+            if L >= 2 and sizes.get(n, 0) > cap:
+                undecided.append(f'{tyname}@L{L}(size)'); continue
+            ex.lazy_vec_len = L; ex.stats['steps'] = 0; ex.max_steps = 600000
+            raw = Obj(pt.lstrip('&').strip())
+            import time as _t; _t0 = _t.time()
+            try:
+                paths = ex.run(ex.start(n, [B.cell(raw) if pt.startswith('&') else raw]))
+                timing.append((round(_t.time() - _t0, 1), tyname, n.rsplit('::', 1)[1], L, len(paths)))
+            except Inconclusive as e:
+                timing.append((round(_t.time() - _t0, 1), tyname, n.rsplit('::', 1)[1], L, str(e)[:30]))
+                undecided.append(f'{tyname}@L{L}({str(e)[:24]})'); break
+            except Exception as e:
+                undecided.append(f'{tyname}@L{L}({type(e).__name__}: {str(e)[:40]})'); break
+            run.absorb(ex)
+            if L == 1:
+                sizes[n] = len(paths)
+            npan = nret = 0
+            for i, p in enumerate(paths):
+                if p.kind == 'infeasible':
+                    continue
+                for e in p.events:
+                    if e[0] == 'havoc':
+                        havocs.add(re.sub(r'<.*', '', e[1])[:60])
+                if p.kind == 'abort':
+                    undecided.append(f'{tyname}@L{L}[{re.sub(r"Obj[0-9]+", "Obj", str(p.info))[:50]}]'); continue
+                run.cur.paths += 1
+                if p.kind == 'panic':
+                    npan += 1
+                    clean = not any(e[0] == 'havoc' for e in p.events)
+                    run.prove(f'{tyname}::{n.rsplit("::", 1)[1]}: no panic [L={L}, path {i}]', p.pc, z3.BoolVal(False), detail={'panic': p.info, 'path_free_of_havoc': clean, 'fn': n})
+                else:
+                    nret += 1
+            if nret:
+                run.reached(f'{tyname}::{n.rsplit("::", 1)[1]} returns')
+                done += 1
+            run.sample({'type': tyname, 'fn': n.rsplit('::', 1)[1], 'L': L, 'paths': len(paths), 'panics': npan})
+    ex.lazy_vec_len = None
+    run.note('slowest: ' + str(sorted(timing, reverse=True)[:12]))
+    if os.environ.get('C17_DEBUG'):
+        import sys; print(sorted(timing, reverse=True)[:25], sorted(set(undecided)), file=sys.stderr)
+    run.note(f'{len(targets)} constructors; not decided (budget / unmodelled construct), deduplicated: ' + ', '.join(sorted(set(undecided)))[:3000])
     run.note('havocked library calls: ' + ', '.join(sorted(havocs))[:1500])
-    if done < 3:
-        raise Inconclusive('fewer than 3 constructors could be analysed')
+    if done < 100:
+        raise Inconclusive(f'only {done} (constructor, length) pairs could be analysed')
     run.require_reached(*run.cur.reach)
 
 
